@@ -94,7 +94,7 @@ def opts_for(rng, quick):
                    'ObjectDescriptor']
     o.n_types = 4
     o.max_depth = 3
-    o.ext_implied = rng.random() < .2
+    o.ext_implied = rng.random() < .5
     return o
 
 
@@ -315,7 +315,7 @@ def corr_batch(ctx, indices):
         rt = G.make_resolver(mod)
         for numeric in (False, True):
             envdefs.append('Definition env_%d_%d : xenv := of_env %s %s.' % (
-                mi, numeric, 'true' if numeric else 'false', to_coq(gen_asn1.coq_env(mod, numeric))))
+                mi, numeric, 'true' if numeric else 'false', to_coq(gen_asn1.coq_env(G.effective_module(mod), numeric))))
         for codec in ('jer', 'xer'):
             for numeric in (False, True):
                 r = lib.attempt(lib.compile_string, text, codec, numeric_enums=numeric)
@@ -629,8 +629,9 @@ def run(ctx):
     ctx.assumptions += [
         'XER strings restricted to XML 1.0 Char minus CARRIAGE RETURN (finding C02-xer-cr)',
         'mandatory members of extension additions are present in values (EncodeError otherwise, by design)',
-        'checked on the tree with proposed_fixes/C02-xer-real-format.diff applied; on the unrepaired tree the XER REAL '
-        'cases are reported as violations (inf/-inf hang, nan, magnitudes >= 1e16 or < 1e-4)',
+        'checked on the tree with proposed_fixes/C02-xer-real-format.diff and C02-default-in-addition-group.diff '
+        'applied; on the unrepaired tree the XER REAL cases (inf/-inf hang, nan, magnitudes >= 1e16 or < 1e-4) and '
+        'absent DEFAULT members of extension addition groups are reported as violations',
     ]
     ctx.extra['open_theorems'] = ['xer_roundtrip_partial (OPEN: finite non-zero REAL text = repr()/float())',
                                   'xer_roundtrip_tree_partial', 'xer_roundtrip_shared_partial']
